@@ -443,3 +443,21 @@ pub fn hash_bytes(b: &[u8]) -> u64 {
     h.bytes(b);
     h.finish()
 }
+
+/// hash of what a process printed that does not depend on the hash-map order of the printed
+/// object (the binary prints its strategies from a `HashMap` with a randomised hasher)
+pub fn hash_output(b: &[u8]) -> u64 {
+    match parse_printed(b) {
+        Ok(p) => {
+            let mut h = Fnv::default();
+            h.f64(p.regret);
+            for i in 0..2 {
+                h.f64(p.util[i]);
+                h.f64(p.regrets[i]);
+            }
+            crate::model::profile_hash(&p.profile, &mut h);
+            h.finish()
+        }
+        Err(_) => hash_bytes(b),
+    }
+}
